@@ -125,7 +125,32 @@ def run_case(case):
         return (po * math.exp(-elapsed / cfg["syn"].get("tau_d", 6.0))
                 - no * math.exp(-elapsed / cfg["syn"].get("tau_r", 2.0))), spk
 
+    def classify_all():
+        nonlocal amb
+        for ix in np.ndindex(*dl.shape):
+            c = tm.classify(float(dl[ix]), dt, tol, "float32")
+            if c[0] == "off" and interp == "nearest" and abs(c[4] / dt - 0.5) < 1e-3:
+                c = ("amb",) + c[1:]
+            cls_[ix] = c
+            if c[0] == "amb":
+                amb += 1
+            elif c[0] == "on":
+                ks.add(c[1])
+            else:
+                ks.add(c[2] + 0.5)
+
+    reassign_at = case.get("reassign_at")
     for step in range(steps):
+        if reassign_at is not None and step == reassign_at and delayedby:
+            # new per-synapse delays through the public setter (as an updater / a delay-learning rule does)
+            rng = np.random.Generator(np.random.PCG64(int(case["sseed"]) + 99))
+            newk = rng.integers(0, K + 1, size=dl.shape)
+            with impl(f"delay re-assignment before step {step}"):
+                D.delay = torch.tensor(newk * dt, dtype=torch.float32)
+                dl = D.delay.detach().numpy()
+            if t == "lateral":
+                check(np.all(np.diag(dl) == 0), "lateral:selfdelay", f"diag(delay) = {np.diag(dl).tolist()} after re-assignment")
+            classify_all()
         if clear_at is not None and step == clear_at:
             with impl("clear"):
                 D.clear()
@@ -208,6 +233,8 @@ def run_case(case):
         cls.append("offgrid")
     if clear_at is not None:
         cls.append("clear")
+    if reassign_at is not None and delayedby:
+        cls.append("delay-reassigned")
     if not delayedby:
         cls.append("zero-max")
         nt = True
@@ -239,7 +266,8 @@ def case_strategy(draw, tier="quick"):
     steps = draw(st.integers(K + 2, 3 * K + 6))
     return {"dt": dt, "batch": draw(st.integers(1, 3)), "conn": conn, "steps": steps,
             "sseed": draw(st.integers(0, 100_000)), "rate": draw(st.sampled_from([0.2, 0.5, 0.8])),
-            "clear_at": draw(st.sampled_from([None, None, None, steps // 2]))}
+            "clear_at": draw(st.sampled_from([None, None, None, steps // 2])),
+            "reassign_at": draw(st.sampled_from([None, None, 1, 2, steps // 2]))}
 
 
 LEGS = [
